@@ -207,7 +207,8 @@ def setup_worker(out, k):
                 "--exclude", "seeded", VERIF + "/", os.path.join(W, "verif") + "/"])
     assert rc == 0, o
     for rel in ("harness/Cargo.toml", "harness/pod-matrix/Cargo.toml", "harness/src/main.rs",
-                "harness/.cargo/config.toml", "harness/pod-matrix/.cargo/config.toml"):
+                "harness/.cargo/config.toml", "harness/pod-matrix/.cargo/config.toml",
+                "harness/disc-alone/Cargo.toml", "harness/disc-alone/.cargo/config.toml"):
         p = os.path.join(W, "verif", rel)
         if os.path.exists(p):
             s = open(p).read().replace('"/repo/', '"%s/repo/' % W).replace('"/verif/', '"%s/verif/' % W)
